@@ -475,18 +475,23 @@ _PROPS_ONLY = re.compile(r"^\s*(:[A-Za-z_][A-Za-z0-9_.\-]*)+\s*$")
 
 
 def _only_property_values_above(root, an):
-    """every intent attribute on an ancestor of an illegal attribute's element is a property-only value, and no other attribute can
-    hide the illegal ones (attributes that are not ancestors do not stand between the root and the illegal element)"""
+    """the only OTHER intent attributes of the expression are property-only values on ancestors of every illegal attribute's element (an
+    attribute elsewhere -- a sibling, a descendant -- can change which rule looks at the element, so it may still hide the illegal one)"""
     parent = {c: p for p in root.iter() for c in p}
+    others = [e for e in an.attrs if e not in an.remove]
+    if not others:
+        return False
+    for o in others:
+        if not _PROPS_ONLY.match(o.get("intent") or ""):
+            return False
     for e in an.remove:
+        anc = set()
         q = parent.get(e)
         while q is not None:
-            v = q.get("intent")
-            if v is not None and q not in an.remove and not _PROPS_ONLY.match(v):
-                return False
-            if q.get("arg") is not None and v is None:
-                pass
+            anc.add(q)
             q = parent.get(q)
+        if any(o not in anc for o in others):
+            return False
     return True
 
 
@@ -1031,7 +1036,8 @@ def sc_nested(tree, rng, max_depth):
         H.attrs["arg"] = "h"
         if kind == "ref-to-illegal" and rng.random() < 0.3:
             # a second element with the same arg name LATER in the scope: the reference still means the first one (and its illegal value)
-            later = [p for p in operand_paths(tree, ap) if p > hp and not is_prefix(hp, p) and "arg" not in node_at(tree, p).attrs and "intent" not in node_at(tree, p).attrs]
+            later = [p for p in operand_paths(tree, ap) if p > hp and not is_prefix(hp, p) and node_at(tree, p).kids is None
+                     and "arg" not in node_at(tree, p).attrs and "intent" not in node_at(tree, p).attrs]      # tokens only: a wrapper may be dissolved by the clean-up, arg and all
             if later:
                 node_at(tree, rng.choice(later)).attrs["arg"] = "h"
         others = label_args(tree, ap, rng, kmax=2, used={"h"}, avoid=[hp]) if rng.random() < 0.6 else {}
